@@ -55,6 +55,18 @@ func broken(format string, args ...any) {
 	panic(BrokenError{fmt.Sprintf(format, args...)})
 }
 
+// ShapeError: a rule cannot follow the shape of the code it is about (the
+// fetcher opens no connection in jtp.Get any more, a function lost the
+// parameters the rule speaks of). Unlike BrokenError it says something about
+// the analysed tree, and is reported as a violation of the rule that raised it.
+type ShapeError struct{ Msg string }
+
+func (s ShapeError) Error() string { return s.Msg }
+
+func unfollowed(format string, args ...any) {
+	panic(ShapeError{fmt.Sprintf(format, args...)})
+}
+
 func isServitorPath(p string) bool {
 	return p == modulePath || strings.HasPrefix(p, modulePath+"/")
 }
@@ -335,7 +347,7 @@ func (p *Program) Func(path, name string) *ssa.Function {
 		fn = p.movedFunc(path, "", name)
 	}
 	if fn == nil {
-		broken("anchor: function %s.%s not found", path, name)
+		unfollowed("anchor: function %s.%s not found", path, name)
 	}
 	return fn
 }
@@ -367,7 +379,7 @@ func (p *Program) Method(path, typ, name string) *ssa.Function {
 		fn = p.movedFunc(path, typ, name)
 	}
 	if fn == nil {
-		broken("anchor: method %s.%s.%s not found", path, typ, name)
+		unfollowed("anchor: method %s.%s.%s not found", path, typ, name)
 	}
 	return fn
 }
@@ -380,7 +392,7 @@ func (p *Program) NamedType(path, typ string) *types.Named {
 		}
 	}
 	if obj == nil {
-		broken("anchor: type %s.%s not found", path, typ)
+		unfollowed("anchor: type %s.%s not found", path, typ)
 	}
 	n, ok := obj.Type().(*types.Named)
 	if !ok {
@@ -437,7 +449,7 @@ func (p *Program) Field(path, typ, field string) *types.Var {
 		}
 	}
 	if v == nil {
-		broken("anchor: field %s.%s.%s not found", path, typ, field)
+		unfollowed("anchor: field %s.%s.%s not found", path, typ, field)
 	}
 	return v
 }
@@ -449,7 +461,7 @@ func (p *Program) Global(path, name string) *ssa.Global {
 			return g
 		}
 	}
-	broken("anchor: global %s.%s not found", path, name)
+	unfollowed("anchor: global %s.%s not found", path, name)
 	return nil
 }
 
